@@ -153,13 +153,18 @@ func opsSx2(tag string, ops []op) Sx {
 // ---------- generators ----------
 
 // valueFn: the value of the i-th stamp; periodic with period p (2^k, 2^k+-1), optionally with a packed author
-// whose period is q, optionally shifted to the top of the uint32 range.  Never the merge mark.
+// whose period is q, optionally shifted to the top of the uint32 range.  The merge mark only when mk > 0: then every
+// mk-th stamp is a merge-mode stamp of one of mq authors (author 0 = the bare constant 16383), round 4.
 type valueFn struct {
 	base, p, q int
 	top        bool
+	mk, mq     int
 }
 
 func (v valueFn) at(i int) int {
+	if v.mk > 0 && i%v.mk == v.mk-1 {
+		return mark | ((i/v.mk)%v.mq)<<14
+	}
 	t := v.base + i%v.p
 	if t&mark == mark {
 		t--
@@ -181,9 +186,80 @@ type scaleGen struct {
 	v       valueFn
 	stamp   int
 	keys    []int // snapshot of the interval starts, refreshed now and then
+	vals    []int // ... and of the intervals' values
+	fresh   int   // the snapshot is refreshed every fresh churn operations
+}
+
+// fixMarks (cases with merge-mode stamps): a deleted line that carries the merge mark must carry the request's own
+// value, anything else panics by design.  Read from the real tree: the first marked interval in the range decides the
+// value when the range starts in it, the range is cut in front of any other conflicting marked interval.
+func (g *scaleGen) fixMarks(o op) op {
+	if g.rc.dead || o.del == 0 {
+		return o
+	}
+	end := o.pos + o.del
+	it := g.rc.tr.file.VerifTree().Min()
+	for !it.Limit() {
+		k, v := int(it.Item().Key), int(it.Item().Value)
+		it = it.Next()
+		if it.Limit() || k >= end {
+			break
+		}
+		next := int(it.Item().Key)
+		if next <= o.pos || v&mark != mark || v == o.t {
+			continue
+		}
+		if k <= o.pos {
+			o.t = v
+		} else {
+			end = k
+			break
+		}
+	}
+	o.del = end - o.pos
+	if o.del == 0 && o.ins == 0 {
+		o.ins = 1
+	}
+	return o
+}
+
+// resolveMarks: delete (or overwrite in two steps) every merge-marked interval, from the end of the file to its start
+func (g *scaleGen) resolveMarks() {
+	if g.rc.dead || g.v.mk == 0 {
+		return
+	}
+	type iv struct{ k, n, v int }
+	var ivs []iv
+	it := g.rc.tr.file.VerifTree().Min()
+	for !it.Limit() {
+		k, v := int(it.Item().Key), int(it.Item().Value)
+		it = it.Next()
+		if it.Limit() {
+			break
+		}
+		if v&mark == mark {
+			ivs = append(ivs, iv{k, int(it.Item().Key) - k, v})
+		}
+	}
+	for i := len(ivs) - 1; i >= 0; i-- {
+		x := ivs[i]
+		if !g.emit(op{x.v, x.k, 0, x.n}) {
+			return
+		}
+		if i%2 == 0 && !g.emit(op{g.v.at(g.v.mk*(1+i)), x.k, x.n, 0}) {
+			return
+		}
+	}
 }
 
 func (g *scaleGen) emit(o op) bool {
+	if g.v.mk > 0 {
+		o = g.fixMarks(o)
+	}
+	return g.emitRaw(o)
+}
+
+func (g *scaleGen) emitRaw(o op) bool {
 	if !g.rc.apply(o) {
 		return false
 	}
@@ -194,9 +270,69 @@ func (g *scaleGen) emit(o op) bool {
 func (g *scaleGen) next() int { g.stamp++; return g.v.at(g.stamp) }
 
 func (g *scaleGen) refresh() {
-	if !g.rc.dead {
-		g.keys = g.rc.tr.keys()
+	if g.rc.dead {
+		return
 	}
+	g.keys, g.vals = g.keys[:0], g.vals[:0]
+	for it := g.rc.tr.file.VerifTree().Min(); !it.Limit(); it = it.Next() {
+		g.keys = append(g.keys, int(it.Item().Key))
+		g.vals = append(g.vals, int(it.Item().Value))
+	}
+}
+
+// aligned: a replacement (or deletion / insertion) whose range starts and ends at interval starts of the snapshot,
+// stamped with the value of the interval behind or in front of the range, or with a merge-mode / other-author
+// variant of it (round 4: the values that a normalisation would make equal to the neighbour's)
+func (g *scaleGen) aligned() (op, bool) {
+	r := g.c.Rng
+	m := len(g.keys) - 1 // the last key is the end of the file
+	if m < 2 {
+		return op{}, false
+	}
+	j := r.Intn(m)
+	e := minInt(m, j+r.Intn(4))
+	pos, end := g.keys[j], g.keys[e]
+	if pos > g.length || end > g.length || end < pos {
+		return op{}, false
+	}
+	o := op{pos: pos, del: end - pos}
+	switch r.Intn(4) {
+	case 0:
+		o.ins = o.del
+	case 1:
+		o.ins = 0
+	default:
+		o.ins = 1 + r.Intn(3)
+	}
+	t := g.v.at(r.Intn(1 << 20))
+	switch r.Intn(4) {
+	case 0:
+		if e < m {
+			t = g.vals[e]
+		}
+	case 1:
+		if j > 0 {
+			t = g.vals[j-1]
+		}
+	case 2: // the neighbour's tick with another author / the neighbour's author with another tick
+		if e < m {
+			t = g.vals[e] ^ (1+r.Intn(3))<<14
+			if r.Intn(2) == 0 {
+				t = g.vals[e] ^ (1 + r.Intn(3))
+			}
+		}
+	}
+	if t < 0 || t >= maxU32 {
+		t = g.v.at(0)
+	}
+	if g.v.mk == 0 && t&mark == mark { // a case without merge-mode stamps stays without them
+		t--
+	}
+	o.t = t
+	if o.ins == 0 && o.del == 0 {
+		o.ins = 1
+	}
+	return o, true
 }
 
 // a position: an interval start of the snapshot (possibly +-1), the ends, or uniform
@@ -263,8 +399,16 @@ func (g *scaleGen) build(shape string, k, w int) {
 func (g *scaleGen) churn(n int) {
 	r := g.c.Rng
 	for i := 0; i < n; i++ {
-		if i%2000 == 0 {
+		if i%g.fresh == 0 {
 			g.refresh()
+		}
+		if r.Intn(5) == 0 {
+			if o, ok := g.aligned(); ok && g.length+o.ins-o.del <= maxU32 {
+				if !g.emit(o) {
+					return
+				}
+				continue
+			}
 		}
 		pos := g.position()
 		room := g.length - pos
@@ -304,6 +448,7 @@ func (g *scaleGen) churn(n int) {
 // pure or with an insertion whose tick equals the interval before, after or far away
 func (g *scaleGen) massDelete(num, den int) {
 	r := g.c.Rng
+	g.resolveMarks()
 	g.refresh()
 	if g.length == 0 {
 		return
@@ -337,7 +482,7 @@ func (g *scaleGen) massDelete(num, den int) {
 }
 
 func newScaleGen(c *Config, t0, n0 int, v valueFn, every int, flat, model bool) *scaleGen {
-	return &scaleGen{c: c, rc: newRecorder(t0, n0, every, flat, model), length: n0, v: v, neutral: 4}
+	return &scaleGen{c: c, rc: newRecorder(t0, n0, every, flat, model), length: n0, v: v, neutral: 4, fresh: 2000}
 }
 
 // scaleCase: a file of about k intervals built in the given order, churned, hit by mass deletions, rebuilt, emptied
@@ -349,6 +494,9 @@ func scaleCase(c *Config, shape string, k, w, churn int, v valueFn, every int, m
 	if k > 20000 {
 		g.neutral = 7
 	}
+	if k <= 1100 { // small enough to read the interval starts before every churn operation: aligned requests are exact
+		g.fresh = 1
+	}
 	g.build(shape, k, w)
 	g.churn(churn / 2)
 	g.massDelete(1, 3)
@@ -359,6 +507,7 @@ func scaleCase(c *Config, shape string, k, w, churn int, v valueFn, every int, m
 	g.build("evenodd", k/2, w)
 	g.churn(churn / 4)
 	// empty the file in three cuts (middle, tail, head), then a few more operations on the empty / tiny file
+	g.resolveMarks()
 	if g.length > 3 {
 		a, b := g.length/3, 2*g.length/3
 		g.emit(op{g.next(), a, 0, b - a})
@@ -412,6 +561,9 @@ func hugeManyCase(c *Config, n0, k int, bad bool, every int) {
 	v := valueFn{base: 1 + r.Intn(100), p: []int{2, 3, 7, 8, 9}[r.Intn(5)]}
 	if r.Intn(3) == 0 {
 		v.q = 5
+	}
+	if r.Intn(2) == 0 { // round 4: merge-mode stamps of three authors (one of them the bare mark) among the intervals
+		v.mk, v.mq = 2+r.Intn(3), 3
 	}
 	g := newScaleGen(c, 0, n0, v, every, false, true)
 	anchors := []int{100, 1 << 31, n0 - 100, 1<<31 - 1000, 1<<31 + 1000}
@@ -488,8 +640,8 @@ func hugeManyCase(c *Config, n0, k int, bad bool, every int) {
 		if pos+del <= g.length { // in range after all (pos + del = 2^32 - 1 on a full file): make it run past the end
 			del = g.length - pos + 1 + r.Intn(3)
 		}
-		g.emit(op{7, pos, r.Intn(2), del})
-		g.emit(op{8, 0, 1, 0}) // never applied when the request is rejected
+		g.emitRaw(op{7, pos, r.Intn(2), del})
+		g.emitRaw(op{8, 0, 1, 0}) // never applied when the request is rejected
 	}
 	g.rc.emit(c, kind)
 }
@@ -522,7 +674,28 @@ func scaleFamily(c *Config) {
 		}
 		return v
 	}
+	// round 4: merge-mode stamps of 2..4 authors (author 0 = the bare mark) every 2nd..5th stamp, with or without
+	// packed authors on the regular stamps
+	valM := func() valueFn {
+		v := valueFn{base: 1 + r.Intn(1000), p: periods(r), mk: 2 + r.Intn(4), mq: 2 + r.Intn(3)}
+		if r.Intn(2) == 0 {
+			v.q = 2 + r.Intn(3)
+		}
+		return v
+	}
 	shapes := []string{"asc", "desc", "rnd", "evenodd"}
+	for _, k := range []int{100, 255, 257, 1000} {
+		// a checkpoint every 50 operations: the generator reads the marked intervals from the implementation, so a
+		// tracker that has lost one soon produces a request outside the domain, after which nothing is judged
+		scaleCase(c, shapes[r.Intn(4)], k, 1+r.Intn(3), 4*k, valM(), 50, k < 1000 || !quick)
+	}
+	spineCase(c, r.Intn(2) == 0, 500, valM(), 50, true)
+	if !quick {
+		for _, sh := range shapes {
+			scaleCase(c, sh, 1025, 1+r.Intn(3), 8000, valM(), 100, true)
+		}
+		scaleCase(c, shapes[r.Intn(4)], 10000, 1, 20000, valM(), 1000, false)
+	}
 	// sizes straddle 2^8, 2^10, 2^15, 2^16 interval counts; the model is stepped where it is fast enough
 	for _, k := range []int{255, 257, 1000, 1025} {
 		for _, sh := range shapes {
